@@ -28,14 +28,15 @@ class G:
         op = r.choice(['add', 'sub', 'mul', 'add', 'sub', 'idiv', 'mod', 'eq', 'ne', 'lt', 'gt', 'le', 'ge', 'and', 'or', 'xor'])
         return ('B', op, self.expr(depth - 1, small), self.expr(depth - 1, small))
 
-    def cond(self):
+    def cond(self, d=1):
+        # (the real parser's time grows exponentially with the depth of parentheses: conditions stay shallow)
         r = self.rng
         k = r.random()
-        if k < 0.5:
+        if k < 0.5 or (d <= 0 and k >= 0.8):
             return ('B', r.choice(['eq', 'ne', 'lt', 'gt', 'le', 'ge']), self.expr(1, True), self.expr(1, True))
         if k < 0.8:
             return self.expr(1, True)          # a plain value: zero / non-zero
-        return ('B', r.choice(['and', 'or']), self.cond(), self.cond())
+        return ('B', r.choice(['and', 'or']), self.cond(d - 1), self.cond(d - 1))
 
     def block(self, depth, in_do, in_for, n=None):
         r = self.rng
